@@ -434,7 +434,7 @@ Section Rule.
   Proof.
     intros Hu Hna Herr.
     unfold parse_rule_strict in *.
-    destruct (negb (is_tag (n_tag rn) mapTag)) eqn:Et; [discriminate|].
+    destruct (negb (is_tag (n_tag rn) mapTag) || kind_mismatch rn KMapping)%bool eqn:Et; [discriminate|].
     rewrite Hu in *.
     destruct (bad_rule_key (flatten ps)) eqn:Bk; [discriminate|].
     destruct (PR lines 0 rn) as [r e] eqn:PRE. destruct e; [discriminate|].
@@ -457,7 +457,8 @@ Section Rule.
 
   Lemma accepted_is_map rn : r_error (PRS lines rn) = None -> is_tag (n_tag rn) mapTag = true.
   Proof.
-    unfold parse_rule_strict. destruct (negb (is_tag (n_tag rn) mapTag)) eqn:Et; [discriminate|]. intros _. now apply negb_false_iff.
+    unfold parse_rule_strict. destruct (negb (is_tag (n_tag rn) mapTag) || kind_mismatch rn KMapping)%bool eqn:Et; [discriminate|].
+    intros _. apply orb_false_iff in Et. now apply negb_false_iff.
   Qed.
 
   Lemma guard_not_seq rn : rule_guard rn -> is_tag (n_tag rn) mapTag = true -> n_kind rn <> KSequence.
